@@ -506,7 +506,9 @@ fn record_msm<D: CurveDrv>(cfg: &str, seed: u64, step: usize, rng: &mut Rng, reg
     let bases: Vec<<D::G as CurveGroup>::Affine> = as_.iter().map(|&a| mult_aff[a as usize]).collect();
     let scalars: Vec<D::S> = ks.iter().map(|k| D::S::from_le_bytes_mod_order(&k.to_bytes_le())).collect();
     let bigints: Vec<<D::S as PrimeField>::BigInt> = scalars.iter().map(|x| x.into_bigint()).collect();
-    let alg = *rng.pick(&["msm", "msm_unchecked", "msm_bigint", "msm_chunks", "hook_plain", "hook_signed"]);
+    // fixed-base batch multiplication of the source point by all scalars, folded with the small coefficients a_i:
+    //   sum_i a_i (k_i P) - the same linear combination as an MSM over the bases a_i P, so the specification's action is the same
+    let alg = *rng.pick(&["msm", "msm_unchecked", "msm_bigint", "msm_chunks", "hook_plain", "hook_signed", "batch_mul", "batch_mul_table"]);
     let mut ev = json!({"op": "msm", "d": d + 1, "s": s + 1, "alg": alg, "len": len,
                         "as": as_.iter().map(|&a| num_to_json(&BigUint::from(a), true)).collect::<Vec<_>>(),
                         "ks": ks.iter().map(|k| num_to_json(k, true)).collect::<Vec<_>>()});
@@ -519,6 +521,16 @@ fn record_msm<D: CurveDrv>(cfg: &str, seed: u64, step: usize, rng: &mut Rng, reg
             "msm_bigint" => <D::G as VariableBaseMSM>::msm_bigint(&bases, &bigints),
             "msm_chunks" => <D::G as VariableBaseMSM>::msm_chunks(&bases.as_slice(), &scalars.as_slice()),
             "hook_plain" => verif_hooks::msm_bigint_plain::<D::G>(&bases, &bigints),
+            "batch_mul" | "batch_mul_table" => {
+                use ark_ec::scalar_mul::{BatchMulPreprocessing, ScalarMul};
+                let outs: Vec<<D::G as CurveGroup>::Affine> = if alg == "batch_mul" { src.batch_mul(&scalars) }
+                    else { // a table sized for a different number of scalars than it is used for
+                           let t = BatchMulPreprocessing::new(src, [1usize, 31, 32, 200, 5000][(step % 5) as usize]); <D::G as ScalarMul>::batch_mul_with_preprocessing(&t, &scalars) };
+                assert_eq!(outs.len(), scalars.len(), "batch_mul returned a vector of another length");
+                let mut acc = D::G::zero();
+                for (o, &a) in outs.iter().zip(&as_) { for _ in 0..a { acc += *o; } }
+                acc
+            }
             _ => verif_hooks::msm_bigint_signed::<D::G>(&bases, &bigints),
         }
     });
